@@ -13,14 +13,14 @@ OP_NAMES = {0: 'frame(declared shape)', 1: 'frame(one point too few)', 2: 'frame
             26: 'POINT:RATE=0', 27: 'POINT:RATE=50', 28: 'POINT:RATE=100', 29: 'ANALOG:RATE=0', 30: 'ANALOG:RATE=100', 31: 'ANALOG:RATE=200',
             32: 'parameter(new group)', 33: 'parameter(POINT, new)', 34: 'parameter(POINT, replace with other type)', 35: 'parameter(unnamed)', 36: 'parameter(untyped, new group)', 37: 'parameter(untyped, POINT)',
             38: 'lockGroup(POINT)', 39: 'lockGroup(unknown)', 40: 'point(name)', 41: 'point(existing name)', 42: 'analog(name)', 43: 'save+reload', 44: 'point(frames, two new points, last frame lacks the second)', 45: 'analog(frames, two new channels, last sub-frame lacks the second)', 46: 'ANALOG:RATE=300', 47: 'frame(first point renamed)', 48: 'frame(one point too few, last)', 49: 'frame(last point renamed, 0)', 50: 'point(frames, one frame too many)', 51: 'point(frames, name of the last label)', 52: 'analog(frames, one frame too many)', 53: 'analog(frames, name of the last label)', 54: 'point(frames, last frame carries a stray extra point)', 55: 'analog(frames, last frame carries a stray extra channel)'}
-START_NAMES = {0: 'fresh', 1: 'declared', 2: 'populated', 3: 'loaded', 4: 'loaded (fewer labels than points)', 5: 'loaded (empty ANALOG group)', 6: 'loaded (ANALOG:SCALE padded, ANALOG:UNITS unfilled)'}
+START_NAMES = {0: 'fresh', 1: 'declared', 2: 'populated', 3: 'loaded', 4: 'loaded (fewer labels than points)', 5: 'loaded (empty ANALOG group)', 6: 'loaded (ANALOG:SCALE padded, ANALOG:UNITS unfilled)', 7: 'populated, two channels declared under the same name'}
 
 PARTIAL_ANALOG_OPS = (29, 30, 31, 46)     # ANALOG:RATE set on an object whose ANALOG group has no parameter: partially declared group, outside the claim
-def hist_jobs(tier, seed, depth_q=2, depth_t=3, finish=1, dupdeclare=0):
+def hist_jobs(tier, seed, depth_q=2, depth_t=3, finish=1, dupdeclare=0, extra_starts=()):
     out = []
     depth = depth_q if tier == 'quick' else depth_t
     # quick: start 6 stands in for start 3 (it is the same file with deviating ANALOG list lengths); thorough: all seven
-    for start in ((0, 1, 2, 4, 5, 6) if tier == 'quick' else (0, 1, 2, 3, 4, 5, 6)):
+    for start in ((0, 1, 2, 4, 5, 6) if tier == 'quick' else (0, 1, 2, 3, 4, 5, 6)) + tuple(extra_starts):
         for op in range(NOPS):
             if start == 5 and op in PARTIAL_ANALOG_OPS: continue
             if depth >= 3:
